@@ -59,6 +59,12 @@ pub fn run(args: &Args, r: &mut Report) {
             case.shape.push(format!("failkey:{}", if k.starts_with('{') { "app" } else { &k }));
             case.fault.fail_keys.push(k);
         }
+        // a device whose clock is (still) before 1970, possibly crossing the epoch during the history
+        if rng.chance(1, 8) {
+            let t = -(rng.range(1, 20_000) as i128) * 1_000_000_000 - rng.range(0, 999_999_999) as i128;
+            case.start_wall_ns = Some(t);
+            case.shape.push("pre-epoch".into());
+        }
         case.sched = Sched::Fifo;
         case.shape.push(l1);
         case.nontrivial = true;
